@@ -8,6 +8,7 @@ open Vgi Vgi.HttpStream Vgi.Generated.C16 Vgi.Drive.StreamIO
 
 structure St where
   cfg : Option Cfg := none
+  hdr : Bool := false   -- `cfg hdr=1`: the static methods are registered with a header type
   w : World := World.empty
 
 def defaultCfg : Cfg := { cacheOn := true, maxResp := 0, maxExt := 0, extOn := false, batchLimit := 0 }
@@ -24,7 +25,7 @@ def parseCfg (ws : List String) : Option Cfg :=
           else if k = "ext" then some { c with extOn := n != 0 }
           -- `ExternalLocationConfig.threshold()`: a non-positive setting means 1 MiB
           else if k = "thr" then some { c with threshold := if n = 0 then 1048576 else n }
-          else if k = "zstd" || k = "inst" then some c
+          else if k = "zstd" || k = "inst" || k = "hdr" then some c
           else none
         | none => none
       | _ => none) (some defaultCfg)
@@ -42,15 +43,18 @@ def zipTicks : List Nat → List Nat → List TickEnv
   | b :: bs, [] => { buf := b, raw := 0 } :: zipTicks bs []
   | [], _ => []
 
-/-- the trailing `maxresp= maxext= wire= bufs= raws= sizes=` words -/
+/-- the trailing `maxresp= maxext= wire= bufs= raws= sizes= [body0=]` words (`body0`: bytes of the
+header stream already in the response buffer when a producer's /init turn starts its loop) -/
 def parseEnvWords (ws : List String) : Option (Nat × Nat × Env) :=
-  match ws with
-  | [a, b, c, d, e, f] =>
+  let core (a b c d e f : String) (b0 : Nat) : Option (Nat × Nat × Env) :=
     match parseKV "maxresp" a, parseKV "maxext" b, parseKV "wire" c, parseKVList "bufs" d,
           parseKVList "raws" e, parseKVList "sizes" f with
     | some mr, some mx, some wire, some bufs, some raws, some sizes =>
-      some (mr, mx, { wire := wire, ticks := zipTicks bufs raws, body0 := 0, sizes := sizes })
+      some (mr, mx, { wire := wire, ticks := zipTicks bufs raws, body0 := b0, sizes := sizes })
     | _, _, _, _, _, _ => none
+  match ws with
+  | [a, b, c, d, e, f] => core a b c d e f 0
+  | [a, b, c, d, e, f, g] => (parseKV "body0" g).bind (core a b c d e f)
   | _ => none
 
 def showPos : Event → String
@@ -59,7 +63,7 @@ def showPos : Event → String
   | .cancel => "K"
 
 def showRespUp (w : World) (r : Resp) (evs : List Event) (up : Nat) : String :=
-  toString r.status ++ (if r.rpcErr then "E" else "") ++ " " ++ showList (r.batches.map (showBatch w)) ++
+  toString r.status ++ (if r.rpcErr then "E" else "") ++ " " ++ showList ((r.header ++ r.batches).map (showBatch w)) ++
     " | " ++ showList (evs.map showPos) ++ s!" | up={up}"
 
 /-- uploads of a continuation request (recomputed with the same model functions the response comes from) -/
@@ -89,7 +93,7 @@ def step (st : St) (ws : List String) : St × String :=
   match ws with
   | "cfg" :: rest =>
     match st.cfg, parseCfg rest with
-    | none, some c => ({ st with cfg := some c }, "ok")
+    | none, some c => ({ st with cfg := some c, hdr := rest.contains "hdr=1" }, "ok")
     | _, _ => (st, "bad-op")
   | ["u", logs, size, mode, a, b, c, d, e] =>
     match logs.toNat?, size.toNat?, parseKV "maxresp" a, parseKV "maxext" b, parseKV "wire" c, parseKV "buf" d, parseKV "raw" e with
@@ -107,14 +111,19 @@ def step (st : St) (ws : List String) : St × String :=
             s!" | up={unaryUploads cfg rq}")
       | none => (st, "bad-op")
     | _, _, _, _, _, _, _ => (st, "bad-op")
-  | "init" :: inst :: kind :: cancel :: prog :: rest =>
+  | "init" :: inst :: kind :: cancel :: prog :: rest0 =>
+    -- optional `H<n>`: the method returns a header value (n extra bytes: a size, known to the model as `body0`)
+    let (header, rest) : Option Nat × List String := match rest0 with
+      | h :: r => if h.startsWith "H" then (some 1, r) else (none, rest0)
+      | [] => (none, rest0)
     match inst.toNat?, parseKind kind, parseCancel cancel, parseProg prog, parseEnvWords rest with
     | some i, some pr, some ca, some p, some (mr, mx, env) =>
       let cfg := { cfg0 with maxResp := mr, maxExt := mx }
-      let rq : InitReq := { inst := i, st := { prog := p, pos := 0, producer := pr, cancel := ca }, env := env }
+      let rq : InitReq := { inst := i, st := { prog := p, pos := 0, producer := pr, cancel := ca }, env := env,
+                            hasHeader := st.hdr, header := header }
       let (resp, w', evs) := handleInit cfg st.w rq
       let up := if pr then (produceLoop cfg p 0 none 0 0 env.ticks env.body0 env.sizes).uploads.length else 0
-      ({ cfg := some cfg0, w := w' }, showRespUp w' resp evs up)
+      ({ st with cfg := some cfg0, w := w' }, showRespUp w' resp evs up)
     | _, _, _, _, _ => (st, "bad-op")
   | "x" :: inst :: route :: schema :: vals :: rest =>
     let n := rest.length
@@ -126,7 +135,7 @@ def step (st : St) (ws : List String) : St × String :=
       let req : Req := { inst := i, routeProducer := pr, md := md, vals := if schema = "empty" then [] else vs,
                          schemaOk := sok, env := env }
       let (resp, w', evs) := handleExchange cfg st.w req
-      ({ cfg := some cfg0, w := w' }, showRespUp w' resp evs (uploadsOf cfg st.w req))
+      ({ st with cfg := some cfg0, w := w' }, showRespUp w' resp evs (uploadsOf cfg st.w req))
     | _, _, _, _, _, _ => (st, "bad-op")
   | ["drain", tok, cap] =>
     match parseVal st.w tok, parseKV "maxresp" cap with
